@@ -1,11 +1,11 @@
 import ClipperVerif.Props.C07
 open Clipper.Props.C07
 #print axioms open_indices_safe
+#print axioms empty_path_no_call
 #print axioms doPath_safe
-#print axioms empty_path_faults
-#print axioms empty_path_group_faults
+#print axioms frame_safe
+#print axioms empty_path_primitives
 #print axioms reverse_normals
 #print axioms open_delta_symm
-#print axioms frame_local_false_endtype
-#print axioms frame_local_false_delta
-#print axioms frame_local_partial
+#print axioms small_delta_open_nothing
+#print axioms frame_local
